@@ -167,6 +167,74 @@ def _session(job):
             "reporter_threads": len(tids), "unenforced": gate.unenforced + (0 if sched is None or sched.enforced else 1), "iters": iters}
 
 
+def _repeat_session(job):
+    """several extractions with a callback on ONE read-mode object (reset() in between), then close() under a
+    watchdog: every extraction's callback must get a complete account of its own, and close() must return"""
+    path, reps, output, by, delay = job
+    import py7zr
+    from py7zr.callbacks import ExtractCallback
+    tmp = tempfile.mkdtemp(prefix="verif_c18r_")
+
+    class Rec(ExtractCallback):
+        def __init__(self):
+            self.ev = []
+
+        def report_start_preparation(self):
+            self.ev.append(("pre",))
+
+        def report_start(self, p, b):
+            if delay:
+                time.sleep(delay)
+            self.ev.append(("s", p))
+
+        def report_update(self, b):
+            self.ev.append(("u", b))
+
+        def report_end(self, p, b):
+            self.ev.append(("e", p))
+
+        def report_warning(self, m):
+            self.ev.append(("w", m))
+
+        def report_postprocess(self):
+            self.ev.append(("post",))
+
+    src = path if by == "path" else open(path, "rb")
+    z = py7zr.SevenZipFile(src, "r")
+    cbs = []
+    raised = None
+    try:
+        for k in range(reps):
+            cb = Rec()
+            cbs.append(cb)
+            if k:
+                z.reset()
+            if output == "factory":
+                z.extractall(factory=py7zr.io.BytesIOFactory(1 << 24), callback=cb)
+            else:
+                z.extractall(os.path.join(tmp, "o%d" % k), callback=cb)
+    except Exception as e:  # noqa
+        raised = type(e).__name__
+    t = threading.Thread(target=z.close, daemon=True)
+    t.start()
+    t.join(10)
+    closed = not t.is_alive()
+    counts = [len(c.ev) for c in cbs]
+    time.sleep(0.3)
+    late = [len(c.ev) - n for c, n in zip(cbs, counts)]
+    if by != "path":
+        src.close()
+    shutil.rmtree(tmp, ignore_errors=True)
+    out = []
+    for c in cbs:
+        kinds = [e[0] for e in c.ev]
+        starts = [e[1] for e in c.ev if e[0] == "s"]
+        ends = [e[1] for e in c.ev if e[0] == "e"]
+        out.append({"n": len(c.ev), "pre_first": bool(kinds) and kinds[0] == "pre", "post_last": bool(kinds) and kinds[-1] == "post",
+                    "pre": kinds.count("pre"), "post": kinds.count("post"), "paired": sorted(starts) == sorted(ends), "starts": len(starts)})
+    return {"closed": closed, "raised": raised, "late": late, "cbs": out}
+
+
 def select(files, targets, recursive):
     if targets is None:
         return [True] * len(files)
@@ -450,6 +518,32 @@ def run(ctx):
                     ctx.count("iterations-per-slow-member", len(its))
         ctx.correspond("prog.run", lines, impl, classes)
         ctx.correspond("prog.upd", upd_lines, upd_impl)
+        # repeated extractions with callbacks in one session
+        rjobs = []
+        for arc in arcs[: (6 if ctx.thorough else 3)]:
+            for reps in (2, 3):
+                for output in ("factory", "dir"):
+                    rjobs.append((arc["path"], reps, output, rng.choice(["path", "stream"]), rng.choice([0, 0, 0.01])))
+        rres = sandbox.pmap(_repeat_session, rjobs, timeout=120, workers=8)
+        for (path, reps, output, by, delay), (st, val) in zip(rjobs, rres):
+            conf = {"archive": os.path.basename(path), "extractions": reps, "output": output, "open": by, "handler_delay": delay}
+            ctx.case(key=("repeat", os.path.basename(path), reps, output, by), nontrivial=True, sample=conf)
+            if st != "ok":
+                ctx.fail("C18:repeat_" + st, "a session with %d callback extractions did not complete: %s" % (reps, str(val)[:200]), conf)
+                continue
+            ctx.count("repeat-sessions", "closed" if val["closed"] else "CLOSE-HANGS")
+            if not val["closed"]:
+                ctx.fail("C18:close_hangs", "close() did not return within 10 s after %d extractions with callbacks on one object" % reps, dict(conf, result=val))
+                continue
+            if val["raised"]:
+                ctx.fail("C18:repeat_raises", "a repeated extraction raised %s" % val["raised"], dict(conf, result=val))
+                continue
+            if any(val["late"]):
+                ctx.fail("C18:events_after_close", "events were delivered after close() returned", dict(conf, result=val))
+            for k, c in enumerate(val["cbs"]):
+                if not (c["pre_first"] and c["post_last"] and c["pre"] == 1 and c["post"] == 1 and c["paired"]):
+                    ctx.fail("C18:repeat_account", "extraction %d of a session did not get a complete, well-ordered account of its own" % k, dict(conf, result=val))
+                    break
     finally:
         shutil.rmtree(tmp, ignore_errors=True)
 
